@@ -12,7 +12,8 @@ META = dict(
     level="model_checking",
     bounds=dict(
         quick="the real closures returned by decorrelated_jitter, equal_jitter, token_backoff, retry_after_or and adaptive, "
-              "executed on solver values: base_s, max_s reals with 0 <= base_s <= max_s; prev_sleep None or a real >= 0; "
+              "executed on solver values: base_s, max_s reals with 0 <= base_s <= max_s; prev_sleep None, a real >= 0, or the "
+              "concrete 1e308 (prev*3.0 overflows to inf; the uniform stub then yields +inf or, for a draw of exactly 0, NaN); "
               "attempt an UNBOUNDED integer >= 1 (g**attempt cut by a contract stub: OverflowError iff attempt exceeds the "
               "interpreter's threshold, else a fresh value >= g); the random draw cut by the uniform(a,b) contract "
               "(a + m, m between 0 and b-a inclusive); retry_after_s in {None, NaN, +inf, -inf, any real}; fallback value in "
@@ -30,7 +31,7 @@ META = dict(
                  "on overflow the mathematical cap is read as IEEE does: max_s when base_s > 0, 0 when base_s == 0"],
     outside=["IEEE rounding and subnormals", "custom fallback strategies that raise"],
 )
-GOALS = ["dj_first_attempt", "dj_prev_large", "ej_overflow_path", "ej_capped_by_max", "ej_zero_base", "tb_overflow_path",
+GOALS = ["dj_first_attempt", "dj_prev_large", "dj_prev_overflows", "ej_overflow_path", "ej_capped_by_max", "ej_zero_base", "tb_overflow_path",
          "rao_hint_used", "rao_hint_nan_falls_back", "rao_capped_by_remaining", "rao_negative_hint", "adaptive_all_aged_out",
          "adaptive_scaled_up", "adaptive_min_when_healthy"]
 K = ErrorClass.TRANSIENT
@@ -76,6 +77,11 @@ class FakeRandom:
     def uniform(self, a, b):
         d = b - a
         j = len(self.calls)
+        if isinstance(d, float) and (d != d or d in (INF, -INF)):
+            # IEEE: a + (b-a)*random() with an infinite span is +-inf for a draw > 0 and NaN for a draw of exactly 0
+            r = NAN if (d != d or self.sym.choice(f"u{j}_draw_is_zero", [False, True])) else d
+            self.calls.append((a, b, r))
+            return r
         if d >= 0:
             m = self.sym.real(f"u{j}", lo=0)
             self.sym.assume(m <= d)
@@ -124,8 +130,12 @@ def h_jitter(sym, params):
     n = sym.int("attempt", 1, None)
     att = Attempt(sym, n)
     prev = None
-    if which == "decorrelated" and sym.bool("has_prev"):
-        prev = sym.real("prev", lo=0)
+    if which == "decorrelated":
+        pk = sym.choice("prev_kind", ["none", "real", "huge"])
+        if pk == "real":
+            prev = sym.real("prev", lo=0)
+        elif pk == "huge":
+            prev = 1e308  # finite, but prev * 3.0 overflows to +inf in binary64
     with patched_random(sym):
         f = {"decorrelated": decorrelated_jitter, "equal": equal_jitter, "token": token_backoff}[which](base, mx)
         try:
@@ -138,8 +148,9 @@ def h_jitter(sym, params):
         if v < 0 or v > mx:
             return ("envelope", f"decorrelated_jitter returned {v}, outside [0, {mx}]")
         sym.cover("dj_first_attempt", prev is None)
-        if prev is not None:
+        if prev is not None and prev != 1e308:
             sym.cover("dj_prev_large", prev * 3 > mx)
+        sym.cover("dj_prev_overflows", prev == 1e308)
         return None
     g = 2.0 if which == "equal" else 1.5
     if att.overflowed:
